@@ -6,9 +6,9 @@ Every run:
      filled fields of shared objects, with the locks that must be held there; plus the calls of compiler-code mutators
      from the run-time packages;
   2. proof       coq/props/C09.v: the lock discipline is sound for any number of threads and any schedule
-     (C09_lockset_sound); the generated list obeys it outside the known class (C09_guarded_sites_ok, kernel computation);
-     the whole list either obeys it or yields a checked racy program (C09_refuted_or_full); compiled code is read-only
-     at run time (C09_code_readonly);
+     (C09_lockset_sound); the whole generated list obeys it (C09_sites_ok, kernel computation), hence conforming
+     evaluations never race (C09_no_race); a list that does not obey it yields a checked racy program
+     (C09_refuted_or_full); compiled code is read-only at run time (C09_code_readonly);
   3. tie         a -race build of harness/cmd/c09obs runs 2..16 evaluations at the same time, each on its own VM with
      its own globals, over programs that first-touch every registry (16 disjoint families of Go types, codecs, importer
      cache, shared compiled code, spawned clones); each concurrent trial has a sequential twin in a fresh process and
@@ -29,8 +29,8 @@ from lib import common as C
 
 PROP = "C09"
 LEVEL = "proof"
-KNOWN_LOCS = ("object.typeConverters", "object.goTypeRegistry", "object.GoType.converter")
-KNOWN_ID = "typeconv-unlocked-getconverter"
+KNOWN_LOCS = ()       # no open finding: 7737ada (GoType.GetConverter takes goTypeMutex) closed typeconv-unlocked-getconverter
+KNOWN_ID = None
 KNOWN_PATH = ("(*GoType).GetConverter", "object.getTypeConverter", "object.createTypeConverter", "object.newGoType")
 
 PROXY = ["proxy_slices", "proxy_structs", "proxy_maps", "proxy_fields"]
@@ -39,7 +39,7 @@ GUARDED = ["globals", "codecs", "arith", "modules", "import", "shared_code", "sp
 
 def load_known():
     out = []
-    for name in ("known_findings.b.jsonl", "known_findings.jsonl"):
+    for name in ("known_findings.jsonl",):
         p = os.path.join(C.VERIF, name)
         if not os.path.exists(p):
             continue
@@ -136,7 +136,7 @@ def run(res):
     quick = tier == "quick"
     cov = res.coverage
     known = load_known()
-    known_ok = any(k.get("id") == KNOWN_ID for k in known)
+    known_ok = KNOWN_ID is not None and any(k.get("id") == KNOWN_ID for k in known)
 
     gen, err = C.go_build("c09gen")
     if not gen:
@@ -364,13 +364,8 @@ def run(res):
     ]
 
     # ---- decide
-    if known_hits:
-        dyn = [k for k in known_hits if k["stage"].startswith("dynamic")]
-        first = (dyn or known_hits)[0]
-        res.known_finding("first use of a Go type through a proxy method call writes the type-converter / Go-type registries without "
-                          "goTypeMutex (%d unprotected site pairs on %s; %d race reports / crashes in this class; e.g. %s)" % (
-                              sum(1 for k in known_hits if k["stage"] == "static-sites"), ", ".join(l for l in bad_locs if l in KNOWN_LOCS),
-                              len(dyn), first["why"][:200]))
+    if known_hits:      # unreachable while KNOWN_ID is None; kept for a future open class
+        res.known_finding("%d observations in the open class %s, e.g. %s" % (len(known_hits), KNOWN_ID, known_hits[0]["why"][:200]))
     dyn_viol = [v for v in oracle_viol if not v.get("static")]
     for v in dyn_viol[:10]:
         v.update({"property": PROP, "kind": "oracle-violation"})
@@ -381,13 +376,13 @@ def run(res):
         res.violation({"property": PROP, "kind": "proof-obligation-broken", "theorem_file": "coq/props/C09.v",
                        "broken": getattr(res, "broken", None), "unprotected": oracle_viol[:10],
                        "search": "%d concurrent evaluations in %d trials under the race detector: no race report, crash or differing "
-                                 "result outside the known class" % (stats["evaluations"], stats["trials"])},
+                                 "result" % (stats["evaluations"], stats["trials"])},
                       nofail=True, tag="proof")
         return
     if corr:
         res.violation({"property": PROP, "kind": "correspondence-broken", "stage": corr[0].get("stage"),
                        "first_difference": corr[0], "differences": corr[:20],
-                       "search": "no failing input outside the known class"}, nofail=True, tag="corr")
+                       "search": "no failing input"}, nofail=True, tag="corr")
 
 
 def replay(data):
